@@ -38,6 +38,7 @@ type Params struct {
 	Shutdown   bool // a separate thread calls Shutdown concurrently
 	Replayer   bool
 	ReplayFail int  // 0: never; k: the k-th Replay call returns an error
+	PutFail    int  // 0: never; k: the k-th Put call returns (nil, error): the message is still delivered live
 	NoPreInit  bool // leave Joe's initialisation to whichever thread comes first
 	// Shutdown2: a second thread calls Shutdown concurrently as well.
 	Shutdown2 bool
@@ -45,6 +46,10 @@ type Params struct {
 	// every subscriber presents the ID of the first one, so its replay consists of real Send/Flush calls.
 	Inner   string
 	History int
+	// Cap: capacity of the finite replayer (default 8); Present: the ID every subscriber resumes from (default
+	// "0"). With Cap 4, History 6 and Present "2" the replay starts in the last slot of a wrapped ring.
+	Cap     int
+	Present string
 	Preempt int
 }
 
@@ -59,6 +64,12 @@ func (p Params) Name() string {
 	}
 	if p.Inner != "" {
 		extra += fmt.Sprintf("-%s-h%d", p.Inner, p.History)
+		if p.Cap > 0 {
+			extra += fmt.Sprintf("-cap%d-from%s", p.Cap, p.Present)
+		}
+	}
+	if p.PutFail > 0 {
+		extra += fmt.Sprintf("-putfail%d", p.PutFail)
 	}
 	return fmt.Sprintf("subs[%s]-canc%v-pub%d-shut%v-rep%v%d-noinit%v-pb%d%s", strings.Join(ss, ","), p.Canceller, p.NPub, p.Shutdown, p.Replayer, p.ReplayFail, p.NoPreInit, p.Preempt, extra)
 }
@@ -84,12 +95,12 @@ func body(p Params) func() {
 		vrt.SetUser(w)
 		var rep sse.Replayer
 		if p.Replayer {
-			w.R = &jh.Replayer{ReplayFailAt: p.ReplayFail}
+			w.R = &jh.Replayer{ReplayFailAt: p.ReplayFail, PutFailAt: p.PutFail}
 			rep = w.R
 		}
 		switch p.Inner {
 		case "finite":
-			f, _ := sse.NewFiniteReplayer(8, true)
+			f, _ := sse.NewFiniteReplayer(max(p.Cap, 8*btoi(p.Cap == 0)), true)
 			w.R = &jh.Replayer{Inner: f}
 			rep = w.R
 		case "valid":
@@ -121,6 +132,9 @@ func body(p Params) func() {
 				sub := sse.Subscription{Client: wr, Topics: []string{"a"}}
 				if p.Inner != "" {
 					sub.LastEventID = sse.ID("0")
+					if p.Present != "" {
+						sub.LastEventID = sse.ID(p.Present)
+					}
 				}
 				err := j.Subscribe(ctx, sub)
 				ret.Poke(1) // same scheduler step as Subscribe's last synchronisation operation
@@ -147,6 +161,13 @@ func body(p Params) func() {
 		w.Final = j.Shutdown(context.Background())
 		vrt.Join(subs...)
 	}
+}
+
+func btoi(b bool) int {
+	if b {
+		return 1
+	}
+	return 0
 }
 
 func summary(r *vrt.Result) string {
@@ -198,7 +219,7 @@ func check(p Params) func(r *vrt.Result) string {
 			}
 		}
 		for _, e := range w.PubErrs {
-			if e != nil && e != sse.ErrProviderClosed {
+			if e != nil && e != sse.ErrProviderClosed && !(p.PutFail > 0 && e == jh.ErrReplay) {
 				return fmt.Sprintf("Publish returned %v", e)
 			}
 		}
@@ -266,6 +287,14 @@ func Scenarios(tier string) []run.Scenario {
 			}
 		}
 	}
+	// a replayer that rejects the k-th message: the subscriber still gets a real message
+	for _, sc := range scripts(2) {
+		for pf := 1; pf <= 2; pf++ {
+			for _, canc := range bools {
+				add(Params{Subs: []Script{sc}, Canceller: canc, NPub: 2, Shutdown: canc, Replayer: true, PutFail: pf, Preempt: -1})
+			}
+		}
+	}
 	// two concurrent Shutdown calls (plus the final one)
 	for _, sc := range []Script{{}, {FailAt: 1}} {
 		for _, canc := range bools {
@@ -286,6 +315,11 @@ func Scenarios(tier string) []run.Scenario {
 			}
 		}
 	}
+	// a wrapped ring: the replay starts in its last slot and continues from slot 0
+	for _, sc := range scripts(4) {
+		add(Params{Subs: []Script{sc}, NPub: 1, Inner: "finite", History: 6, Cap: 4, Present: "2", Preempt: -1})
+		add(Params{Subs: []Script{sc}, NPub: 1, Inner: "finite", History: 7, Cap: 4, Present: "3", Preempt: -1})
+	}
 	if tier == "thorough" {
 		// three subscribers, one publish, preemption-bounded
 		for _, sc := range scripts(2) {
@@ -297,7 +331,7 @@ func Scenarios(tier string) []run.Scenario {
 
 var Check = &run.Check{
 	ID: "C06", Level: "model_checking",
-	Rule: "Scenarios: 1-3 subscribers whose MessageWriter fails at its k-th Send/Flush call (k enumerated; with and without cancelling the subscriber's context in the same step, as net/http does) x canceller threads x publisher x concurrent Shutdown x replayer whose Replay fails; two Shutdown calls racing each other; real FiniteReplayer / ValidReplayer holding 2-3 events, the subscriber resuming from the first one with a writer that fails at any call of the replay or after it; per scenario all interleavings at synchronisation operations (unbounded with state-key pruning unless the scenario name says pb>=0), all select tie-breaks and all map orders are explored.",
+	Rule: "Scenarios: 1-3 subscribers whose MessageWriter fails at its k-th Send/Flush call (k enumerated; with and without cancelling the subscriber's context in the same step, as net/http does) x canceller threads x publisher x concurrent Shutdown x replayer whose Replay fails or whose k-th Put rejects the message; two Shutdown calls racing each other; real FiniteReplayer / ValidReplayer holding 2-3 events, the subscriber resuming from the first one with a writer that fails at any call of the replay or after it (also on a wrapped ring of 4 whose replay starts in the last slot); per scenario all interleavings at synchronisation operations (unbounded with state-key pruning unless the scenario name says pb>=0), all select tie-breaks and all map orders are explored.",
 	Assumptions: []string{
 		"schedules are explored at the granularity of synchronisation operations under sequential consistency (DESIGN.md 2.1)",
 		"a panic reaching the top of a goroutine is process death",
